@@ -13,6 +13,7 @@ DOC = {
                    'a hash or metadata failure turns into None and removes only that file (R2); no unwrap/expect on an I/O result is reachable from group_files (R3); extent '
                    'lookup failures are only logged (R4).',
     'rules': {
+        'C15.M': __import__('fcverif.rules.common', fromlist=['MANDATORY_TEXT']).MANDATORY_TEXT,
         'C15.R1': 'every io::Result produced on the group path is PROPAGATED / RETURNED / LOGGED / ERR-RETURNED; closures receiving an io::Result do not discard it silently; named exceptions only',
         'C15.R2': 'hash_file_or_log_err / hash_transformed_or_log_err / file_info_or_log_err: Err -> log (except NotFound) -> None; Ok -> Some',
         'C15.R3': 'no unwrap()/expect() on an io::Result in any body reachable from group_files (named exceptions)',
@@ -72,6 +73,8 @@ def run(ctx):
     r2(ctx, lib)
     r3(ctx, lib, cg)
     r4(ctx, lib, cg)
+    from .common import run_mandatory
+    run_mandatory(ctx, 'C15')
 
 
 def exception_for(bpath, cpath):
